@@ -86,3 +86,146 @@ Print Assumptions C07_acq_missing.
 Print Assumptions C07_acq_missing_scan.
 Print Assumptions C07_acq_monotone_time_partial.
 Print Assumptions C07_acq_monotone_time_unsorted_refuted.
+
+(* ------------------------------------------------------------------------------------------------------------------------
+   The last clause tied to the Core model of build programs (C07/CoreBridge.v): the listing the scan runs over is
+   `core_entries env prog` = listing of `built env prog` = apply_modifiers (run_prog env prog), the start times are the Core
+   schedule's, `core_acq` has one row (qubit, identifier, per-qubit index reported by the scan, start) per listed measurement.
+   `listed_table env None ns c' ns'`: ns' is the circuit itself or the graph of a listed sub-circuit at any nesting depth, c' the
+   context handed down to it; `anc ps a b`: b is reached from a through child links (Core.Model.children); `follows ns a b`: the
+   same through FOLLOWED_BY / multi-links only (the only links an implicit program creates). *)
+From QCE Require Import Core.Model Core.Run Core.BfsProofs Core.BfsWf C07.CoreBridge C07.CoreBridgeProofs.
+From QCE Require C02.Proofs C04.Proofs.
+
+(* REFUTED (known finding F20): an implicit program (every command adds one operation without a relation; no sub-circuits) with
+   non-negative durations whose schedule is free of channel overlaps, and two measurements of one qubit whose indices are
+   ordered against their start times.  Implicit placement follows the channel-sharing node of maximal relation DEPTH
+   (C01_implicit_placement), the listing is depth-first-layered (C02), the indices follow the listing. *)
+Theorem C07_core_time_order_refuted :
+  exists env prog,
+    implicit_prog prog = true /\ nonneg_durs env prog = true /\
+    overlap_freeb (core_entries env prog) = true /\
+    NoDup (uids (core_items env prog)) /\
+    exists r1 r2, In r1 (core_acq env prog) /\ In r2 (core_acq env prog) /\
+      a_qubit r1 = a_qubit r2 /\ 0 <= a_index r1 < a_index r2 /\ a_start r1 > a_start r2.
+Proof. exact core_time_order_refuted. Qed.
+
+(* the meaning of the two booleans *)
+Theorem C07_core_implicit_prog_spec : forall p, implicit_prog p = true <-> forall c, In c p -> exists l, c = CAdd l None.
+Proof. exact implicit_prog_spec. Qed.
+Theorem C07_core_overlap_free_spec : forall es, overlap_freeb es = true ->
+  forall x y, before es x y -> share_channel (e_leaf x) (e_leaf y) = true -> e_end x <= e_start y \/ e_end y <= e_start x.
+Proof. exact overlap_freeb_spec. Qed.
+
+(* WHEN the order is guaranteed.  Every build program (sub-circuits, repetitions, explicit relations elsewhere), unrolled; every
+   graph met while listing it; two leaf operations a, b of that graph, b listed, b reached from a through FOLLOWED_BY / multi-links;
+   non-negative durations of what is listed: a ends before b starts, a is listed before b, and if both measure the same qubit the
+   scan gives a the smaller index (rows of core_acq exhibited) *)
+Theorem C07_core_ancestor_order : forall env prog,
+  (forall e, In e (core_entries env prog) -> 0 <= resolve env (l_dur (e_leaf e))) ->
+  forall c' ns', listed_table env None (built env prog) c' ns' ->
+  forall a b na nb la lb,
+    nth_error ns' a = Some na -> n_op na = OLeaf la -> nth_error ns' b = Some nb -> n_op nb = OLeaf lb ->
+    In b (bfs (parents ns')) -> follows ns' a b ->
+    let ea := entry_at la (nth a (node_times env c' ns') (0, 0)) in
+    let eb := entry_at lb (nth b (node_times env c' ns') (0, 0)) in
+    e_end ea <= e_start eb /\ e_start ea <= e_start eb /\ before (core_entries env prog) ea eb /\
+    forall q ta tb, l_acq la = Some (q, ta) -> l_acq lb = Some (q, tb) -> NoDup (uids (core_items env prog)) ->
+      0 <= qindex (core_items env prog) (l_lab la) < qindex (core_items env prog) (l_lab lb) /\
+      In {| a_qubit := q; a_uid := l_lab la; a_index := qindex (core_items env prog) (l_lab la); a_start := e_start ea |} (core_acq env prog) /\
+      In {| a_qubit := q; a_uid := l_lab lb; a_index := qindex (core_items env prog) (l_lab lb); a_start := e_start eb |} (core_acq env prog).
+Proof. exact program_ancestor_order. Qed.
+
+(* the same for ANY well-formed circuit (wf_op: what C02_built_graphs_wellformed gives for everything the model builds; also the
+   form in which a library-built circuit's recorded relation graph is checked), e.g. the circuit before apply_modifiers() *)
+Theorem C07_core_ancestor_order_any_circuit : forall env ns, wf_op (OComp 1 ns) ->
+  let L := listing env ns in
+  let items := items_of_entries L in
+  (forall e, In e L -> 0 <= resolve env (l_dur (e_leaf e))) ->
+  forall c' ns', listed_table env None ns c' ns' ->
+  forall a b na nb la lb,
+    nth_error ns' a = Some na -> n_op na = OLeaf la -> nth_error ns' b = Some nb -> n_op nb = OLeaf lb ->
+    In b (bfs (parents ns')) -> follows ns' a b ->
+    let ea := entry_at la (nth a (node_times env c' ns') (0, 0)) in
+    let eb := entry_at lb (nth b (node_times env c' ns') (0, 0)) in
+    e_end ea <= e_start eb /\ e_start ea <= e_start eb /\ before L ea eb /\
+    forall q ta tb, l_acq la = Some (q, ta) -> l_acq lb = Some (q, tb) -> NoDup (uids items) ->
+      0 <= qindex items (l_lab la) < qindex items (l_lab lb) /\
+      In {| a_qubit := q; a_uid := l_lab la; a_index := qindex items (l_lab la); a_start := e_start ea |} (acq_rows L) /\
+      In {| a_qubit := q; a_uid := l_lab lb; a_index := qindex items (l_lab lb); a_start := e_start eb |} (acq_rows L).
+Proof. exact core_ancestor_order. Qed.
+
+(* whatever the relation types on the path (JOINED_START / JOINED_END included): listed first, smaller index; nothing on times *)
+Theorem C07_core_ancestor_listed_first : forall env prog,
+  forall c' ns', listed_table env None (built env prog) c' ns' ->
+  forall a b na nb la lb,
+    nth_error ns' a = Some na -> n_op na = OLeaf la -> nth_error ns' b = Some nb -> n_op nb = OLeaf lb ->
+    In b (bfs (parents ns')) -> anc (parents ns') a b ->
+    let ea := entry_at la (nth a (node_times env c' ns') (0, 0)) in
+    let eb := entry_at lb (nth b (node_times env c' ns') (0, 0)) in
+    before (core_entries env prog) ea eb /\
+    forall q ta tb, l_acq la = Some (q, ta) -> l_acq lb = Some (q, tb) -> NoDup (uids (core_items env prog)) ->
+      0 <= qindex (core_items env prog) (l_lab la) < qindex (core_items env prog) (l_lab lb) /\
+      In {| a_qubit := q; a_uid := l_lab la; a_index := qindex (core_items env prog) (l_lab la); a_start := e_start ea |} (core_acq env prog) /\
+      In {| a_qubit := q; a_uid := l_lab lb; a_index := qindex (core_items env prog) (l_lab lb); a_start := e_start eb |} (core_acq env prog).
+Proof. exact program_ancestor_listed_first. Qed.
+
+(* the duration hypothesis from conditions on the program: C04's (operation durations and class defaults non-negative, no empty
+   sub-circuit) for every program; the durations of the added operations alone for programs without sub-circuits *)
+Theorem C07_core_durations_from_program : forall env p,
+  C04.Proofs.env_ok env -> p <> [] -> Forall (C04.Proofs.cmd_ok env) p ->
+  forall e, In e (core_entries env p) -> 0 <= resolve env (l_dur (e_leaf e)).
+Proof. exact program_listed_nonneg. Qed.
+Theorem C07_core_durations_flat : forall env p, flat_prog p = true -> nonneg_durs env p = true ->
+  forall e, In e (core_entries env p) -> 0 <= resolve env (l_dur (e_leaf e)).
+Proof. exact flat_listed_nonneg. Qed.
+
+(* implicit programs: node i is command i, unrolling changes nothing, and EVERY relation ancestor qualifies *)
+Theorem C07_core_implicit_ancestor_order : forall env p, implicit_prog p = true -> nonneg_durs env p = true ->
+  let ns := run_prog env p in
+  built env p = ns /\
+  forall a b la lb, nth_error p a = Some (CAdd la None) -> nth_error p b = Some (CAdd lb None) ->
+    In b (bfs (parents ns)) -> anc (parents ns) a b ->
+    let ea := entry_at la (nth a (node_times env None ns) (0, 0)) in
+    let eb := entry_at lb (nth b (node_times env None ns) (0, 0)) in
+    e_end ea <= e_start eb /\ e_start ea <= e_start eb /\ before (core_entries env p) ea eb /\
+    forall q ta tb, l_acq la = Some (q, ta) -> l_acq lb = Some (q, tb) -> NoDup (uids (core_items env p)) ->
+      0 <= qindex (core_items env p) (l_lab la) < qindex (core_items env p) (l_lab lb) /\
+      In {| a_qubit := q; a_uid := l_lab la; a_index := qindex (core_items env p) (l_lab la); a_start := e_start ea |} (core_acq env p) /\
+      In {| a_qubit := q; a_uid := l_lab lb; a_index := qindex (core_items env p) (l_lab lb); a_start := e_start eb |} (core_acq env p).
+Proof. exact implicit_ancestor_order. Qed.
+Theorem C07_core_small_prog_listed : forall env p b, Z.of_nat (length p) <= 4999 -> (b < length p)%nat ->
+  In b (bfs (parents (run_prog env p))).
+Proof. exact small_prog_listed. Qed.
+
+(* a sufficient condition for ALL pairs: an implicit program of at most 4999 operations each of which shares a channel with the
+   one added just before it builds a single chain, and then insertion order, index order and start-time order coincide *)
+Theorem C07_core_chained_graph_is_chain : forall env p, chained None p = true -> Z.of_nat (length p) <= 4999 ->
+  parents (run_prog env p) = C02.Proofs.chain_parents (length p).
+Proof. exact chained_graph_is_chain. Qed.
+Theorem C07_core_single_chain_order : forall env p,
+  chained None p = true -> Z.of_nat (length p) <= 4999 -> nonneg_durs env p = true -> NoDup (uids (core_items env p)) ->
+  let tm := node_times env None (run_prog env p) in
+  forall a b la lb q ta tb, (a < b)%nat ->
+    nth_error p a = Some (CAdd la None) -> nth_error p b = Some (CAdd lb None) ->
+    l_acq la = Some (q, ta) -> l_acq lb = Some (q, tb) ->
+    let sa := fst (nth a tm (0, 0)) in
+    let sb := fst (nth b tm (0, 0)) in
+    snd (nth a tm (0, 0)) <= sb /\ sa <= sb /\
+    0 <= qindex (core_items env p) (l_lab la) < qindex (core_items env p) (l_lab lb) /\
+    In {| a_qubit := q; a_uid := l_lab la; a_index := qindex (core_items env p) (l_lab la); a_start := sa |} (core_acq env p) /\
+    In {| a_qubit := q; a_uid := l_lab lb; a_index := qindex (core_items env p) (l_lab lb); a_start := sb |} (core_acq env p).
+Proof. exact single_chain_order. Qed.
+
+Print Assumptions C07_core_time_order_refuted.
+Print Assumptions C07_core_implicit_prog_spec.
+Print Assumptions C07_core_overlap_free_spec.
+Print Assumptions C07_core_ancestor_order.
+Print Assumptions C07_core_ancestor_order_any_circuit.
+Print Assumptions C07_core_ancestor_listed_first.
+Print Assumptions C07_core_durations_from_program.
+Print Assumptions C07_core_durations_flat.
+Print Assumptions C07_core_implicit_ancestor_order.
+Print Assumptions C07_core_small_prog_listed.
+Print Assumptions C07_core_chained_graph_is_chain.
+Print Assumptions C07_core_single_chain_order.
